@@ -51,6 +51,17 @@ if fn in ("load", "loads", "load_all", "loads_all"):
     efmt = fmt if fmt is not None else sfx[1:]
     text = XYZ2 if efmt == "xyz" else mol2_text() if efmt == "mol2" else "garbage"
     kw = {"otype": oarg, "name": name}
+    if efmt == "cdxml" and fn in ("load", "load_all"):
+        import warnings
+        warnings.simplefilter("ignore")
+        if w.get("key") not in (None, "None"):
+            kw["key"] = "benzene"
+        got = outcome(lambda: getattr(ml, fn)(ml.files.parser_demo_cdxml, **({"fmt": fmt} if fmt is not None else {}), **kw))
+        print("got     :", norm(got))
+        objs = got[1] if isinstance(got[1], list) else [got[1]]
+        bad = got[0] != "ok" or (name is not None and any(getattr(o, "name", None) != name for o in objs))
+        print("REPRODUCED: cdxml result does not honour the name override / raised" if bad else "not reproduced")
+        sys.exit(0 if bad else 1)
     if fn in ("load", "load_all"):
         d = tempfile.mkdtemp()
         p = os.path.join(d, "w" + (sfx if fmt is None else "." + (fmt or "dat")))
